@@ -178,6 +178,9 @@ def run_check(pid: str, tier: str, nshards: int | None, examples: int | None) ->
             if line not in known_lines:
                 known_lines.append(line)
             continue
+        if len(violations) >= 12:  # enough distinct reports for one run; the rest is only counted
+            extra_unreported = locals().get("extra_unreported", 0) + 1
+            continue
         budget = min(120 if tier == "quick" else 400, shrink_left)
         small, runs = (slot["program"], 0) if budget <= 0 else ddmin_ops(check, slot["program"], sig, budget=budget)
         shrink_left -= runs
